@@ -1413,7 +1413,7 @@ func init() {
 			"oracle: accept/reject verdict identical and, when accepted, stdout + uncaught error identical (RunElk on base and edited program); differences are delta-minimised (smallest base program + the single edit); distinct = (edit kind, position class) pairs",
 		NumCases: func(tier string) int {
 			if tier == "thorough" {
-				return 12000
+				return 2000
 			}
 			return 400
 		},
